@@ -20,7 +20,7 @@ fn lib_dir(d: CharacterDirection) -> Dir {
 
 const VARIANT_LISTS: &[&[&str]] = &[&["macos"], &["1996", "valencia"]];
 
-pub fn c14_check_id(dd: &DirData, l: &str, s: Option<&str>, r: Option<&str>, cldr_locale: Option<Dir>) -> (Vec<Fail>, &'static str) {
+pub fn c14_check_id(dd: &DirData, lk: Option<&Likely>, l: &str, s: Option<&str>, r: Option<&str>, cldr_locale: Option<Dir>) -> (Vec<Fail>, &'static str) {
     let mut out = vec![];
     let lang: Language = match l.parse() {
         Ok(x) => x,
@@ -49,9 +49,26 @@ pub fn c14_check_id(dd: &DirData, l: &str, s: Option<&str>, r: Option<&str>, cld
             out.push(fail("default-ltr", format!("[{}] {}: script not listed by CLDR and language never listed right-to-left, library says {:?}", cfgname, li, got)));
         }
     }
+    // (6) the documented refinement (quantifier: "compared with an independent model derived from the
+    // layout and likelySubtags JSON files"): with likely-subtags support, a script-less identifier of a
+    // language CLDR lists right-to-left takes the direction of its CLDR likely script for
+    // (language, region), when the likelySubtags data determine one (entry-based answer, not the
+    // C06 fallback latitude) and CLDR lists that script. Everything else stays unconstrained.
+    if FEATURE_ON && s.is_none() && listed.is_none() && dd.rtl_langs.contains(l) {
+        if let Some(lk) = lk {
+            if let Some((_, Some(ls), _)) = lk.primary(l, None, r) {
+                if let Some(d) = dd.script(&ls) {
+                    class = "likely-script-decides";
+                    if got != d {
+                        out.push(fail("likely-script-decides", format!("[{}] {}: CLDR likely script for this language/region is {} ({:?}), library says {:?}", cfgname, li, ls, d, got)));
+                    }
+                }
+            }
+        }
+    }
     // (4) variants never matter
     for vl in VARIANT_LISTS {
-        let vars: Vec<Variant> = vl.iter().map(|v| v.parse().unwrap()).collect();
+        let vars: Vec<Variant> = vl.iter().filter_map(|v| v.parse().ok()).collect();
         let li2 = LanguageIdentifier::from_parts(lang, script, region, &vars);
         match guard(|| li2.character_direction()) {
             Ok(d) if lib_dir(d) == got => {}
@@ -100,7 +117,8 @@ pub fn c14_replay(v: &Value) -> Vec<Fail> {
         n
     };
     let cl = dd.locales.iter().find(|(k, _)| k.eq_ignore_ascii_case(&name)).map(|(_, d)| *d);
-    c14_check_id(&dd, &l, s.as_deref(), r.as_deref(), cl).0
+    let lk = Likely::load().ok();
+    c14_check_id(&dd, lk.as_ref(), &l, s.as_deref(), r.as_deref(), cl).0
 }
 
 fn split_name(name: &str) -> Option<(String, Option<String>, Option<String>, Vec<String>)> {
@@ -139,7 +157,7 @@ pub fn run_c14(ctx: &mut Ctx) {
         if ctx.wants_sample("cldr-locale") {
             ctx.sample("cldr-locale", || json!({"locale": name, "characterOrder": format!("{:?}", d), "config": key_on}));
         }
-        let (mut fails, _) = c14_check_id(&dd, &l, s.as_deref(), r.as_deref(), Some(*d));
+        let (mut fails, _) = c14_check_id(&dd, Some(&lk), &l, s.as_deref(), r.as_deref(), Some(*d));
         if !vars.is_empty() {
             // the CLDR name itself carries variants: parse it as written as well
             if let Ok(li) = name.parse::<LanguageIdentifier>() {
@@ -163,10 +181,11 @@ pub fn run_c14(ctx: &mut Ctx) {
     crate::engines::universe::for_triples(ctx, &u, &lk, &mut |ctx, l, s, r| {
         ctx.evals += 1;
         ctx.count(key_on);
-        let (fails, class) = c14_check_id(&dd, l, s, r, None);
+        let (fails, class) = c14_check_id(&dd, Some(&lk), l, s, r, None);
         ctx.count(match class {
             "script-decides" => "clause:script-decides",
             "default-ltr" => "clause:default-ltr",
+            "likely-script-decides" => "clause:likely-script-decides(feature on, script-less, rtl-listed language)",
             "unconstrained" => "clause:unconstrained(rtl-language,script absent/unlisted)",
             _ => "clause:other",
         });
